@@ -19,7 +19,8 @@ GEN = []
 RULE = ("rf: hand-built card images + random line lists over a 14-symbol alphabet, every REPLACING shape (0-3 pairs, overlapping, "
         "self-creating); sent: printed entry lists with every white-space class as terminator + random texts; "
         "meta: generated copybooks (groups to depth 4, OCCURS, ODO, REDEFINES, FILLER, all usages) x each rewrite kind at every "
-        "applicable site (quick; for the rewrites whose site is a line position: first, last and 5 random positions) / random compositions of 2-5 rewrites (thorough). Non-trivial = branch id > 0 "
+        "applicable site (quick; for the rewrites whose site is a line position: first, last and 5 random positions; every second "
+        "copybook is already broken over several lines so that noise lines fall inside entries, every fourth also has OCCURS written first) / random compositions of 2-5 rewrites (thorough). Non-trivial = branch id > 0 "
         "(rf: number of emitted lines; sent: number of sentences; meta: 100 + rewrite kind). distinct = distinct case lines.")
 TRIVIAL_BRANCHES = [0]
 ASSUMPTIONS = [
